@@ -364,6 +364,12 @@ def build_node(n, env, is_async=False):
             gn = gn.with_outputs(dict(b))
         if n.get("map_over"):
             gn = gn.map_over(*n["map_over"], mode=n.get("map_mode", "zip"), error_handling="continue" if n.get("map_continue") else "raise")
+        # variants derived from the node and thrown away: deriving never changes the node it is called on
+        for b in n.get("discarded_derivations", []):
+            try:
+                gn.with_inputs(dict(b))
+            except Exception:  # noqa: BLE001
+                pass
         return gn
     raise ValueError(kind)
 
